@@ -77,6 +77,42 @@ Why(pk, st) == IF st.status # "accept" THEN NestedPrefix(pk) \o st.why
                ELSE IF pk = "lp" /\ LpUnsupported(st.out) THEN "lp-fragmentation-unsupported"
                ELSE ""
 
+\* ------------------------------------------------------------------ derived pointers (SignaturePtrs of parse_interest / parse_data)
+(* What a strict reading of the format gives for the pointers the decoders return next to the fields:
+     dvb  digest_value_buf: the value of THE ParametersSha256DigestComponent (type 2) of the Name, wherever it
+          stands in the Name; none when there is no such component; unspecified when there are several
+     scn  the Name part of signature_covered_part: the components of the Name except the digest component(s)
+          (specified when a signature value is present)
+     scr  the element range of signature_covered_part: from the first element belonging to ApplicationParameters /
+          SignatureInfo (Interest), resp. from the first recognised element (Data), up to the signature value
+     dcr  the element range of digest_covered_part: from ApplicationParameters to the end of the Interest
+          (specified when ApplicationParameters is present)
+   Ranges are pairs <<first position, position after the last>> of top-level elements; <<>> = unspecified
+   (the format does not define the pointer in that situation, any answer is accepted).                       *)
+Unspec == [k |-> "unspecified"]
+PosOfField(tk, f) == LET C == {i \in 1 .. Len(tk) : tk[i][1] = f} IN IF C = {} THEN 0 ELSE tk[MinOf(C)][2]
+Ptrs(pk, input, st) ==
+  IF pk = "interest" THEN
+    LET comps == st.out[1].comps
+        dig   == SelectSeq(comps, LAMBDA x : x.t = N(2))
+        pSv   == PosOfField(st.taken, 10)
+        pApp  == PosOfField(st.taken, 8)
+        late  == {st.taken[i][2] : i \in {j \in 1 .. Len(st.taken) : st.taken[j][1] >= 8}}
+    IN [dvb |-> IF Len(dig) = 1 THEN [k |-> "bytes", runs |-> dig[1].runs] ELSE IF Len(dig) = 0 THEN None ELSE Unspec,
+        scn |-> IF pSv # 0 THEN [k |-> "list", items |-> SelectSeq(comps, LAMBDA x : x.t # N(2))] ELSE Unspec,
+        scr |-> IF pSv # 0 THEN <<MinOf(late), pSv>> ELSE <<>>,
+        dcr |-> IF pApp # 0 THEN <<pApp, Len(input) + 1>> ELSE <<>>]
+  ELSE IF pk = "data" THEN
+    LET pSv == PosOfField(st.taken, 5) IN
+    [dvb |-> Unspec, scn |-> Unspec,
+     scr |-> IF pSv # 0 THEN <<MinOf({st.taken[i][2] : i \in 1 .. Len(st.taken)}), pSv>> ELSE <<>>, dcr |-> <<>>]
+  ELSE [dvb |-> Unspec, scn |-> Unspec, scr |-> <<>>, dcr |-> <<>>]
+\* observed range codes: <<>> no buffer, <<0, 0>> an empty buffer, <<a, b>> aligned on elements a .. b-1, <<9999, 9999>> misaligned
+PtrsOk(e, g) == /\ (e.dvb = Unspec \/ e.dvb = g.dvb)
+                /\ (e.scn = Unspec \/ e.scn = g.scn)
+                /\ (e.scr = <<>> \/ e.scr = g.scr \/ (e.scr[1] = e.scr[2] /\ g.scr = <<0, 0>>))
+                /\ (e.dcr = <<>> \/ e.dcr = g.dcr)
+
 \* ------------------------------------------------------------------ declarative well-formedness and extraction
 \* (schemas with pairwise distinct types and no map fields)
 Idx(s, t) == IF \E i \in 1 .. Len(s) : s[i].t = t THEN CHOOSE i \in 1 .. Len(s) : s[i].t = t ELSE 0
@@ -136,6 +172,7 @@ CutType     == Cut(<<253, 3>>)
 CutLen5(t)  == Cut(<<t, 254, 0, 0>>)
 CutNackLen  == Cut(<<253, 3, 32, 253, 0>>)
 CompA     == Leaf(N(8), 1, B(97))
+DigComp   == Leaf(N(2), 32, <<R(170, 32)>>)
 NameOk    == Node(N(7), <<CompA>>)
 NameEmpty == Node(N(7), <<>>)
 NameTwo   == Node(N(7), <<CompA, Leaf(N(54), 2, <<R(1, 1), R(0, 1)>>)>>)
@@ -162,7 +199,10 @@ InterestBody ==
     Leaf(N(46), 4, <<R(5, 4)>>),
     NameTwo, Node(N(30), <<UnkCrit>>), Node(N(30), <<NameOk, NameBadComp>>), Leaf(N(34), 1, B(64)), Leaf(N(12), 0, <<>>),
     SigInfoKl(N(44)), SigInfoUnkCrit(N(44)), Leaf(N(33), 1, B(1)),
-    SigInfoDup(N(44)), SigInfoOoo(N(44)), SigInfoNcIn(N(44)), Node(N(30), <<NameOk, UnkNonCrit, NameTwo>>)>>
+    SigInfoDup(N(44)), SigInfoOoo(N(44)), SigInfoNcIn(N(44)), Node(N(30), <<NameOk, UnkNonCrit, NameTwo>>),
+    \* position of the ParametersSha256DigestComponent in the Name: last / middle / first / twice
+    Node(N(7), <<CompA, DigComp>>), Node(N(7), <<CompA, DigComp, CompA>>), Node(N(7), <<DigComp, CompA>>),
+    Node(N(7), <<DigComp, CompA, Leaf(N(2), 32, <<R(187, 32)>>)>>)>>
 InterestTail == <<Bad(Leaf(N(36), 2, <<R(7, 2)>>)), Trunc, Bad(NameOk), Bad(Leaf(N(12), 2, <<R(1, 2)>>)), Bad(SigInfoOk(N(44))),
                   CutLen(36), CutType, Node(N(44), <<Leaf(N(27), 1, B(0)), CutLen(40)>>), Node(N(7), <<CompA, CutLen(8)>>)>>
 
